@@ -11,6 +11,7 @@ import (
 	"encoding/json"
 	"fmt"
 	"os"
+	"runtime/debug"
 	"runtime/pprof"
 	"strings"
 
@@ -35,8 +36,15 @@ type script struct {
 
 // runScript executes a script on a fresh server and prints the transcript.
 func runScript(sc script) {
-	srv := newServer(sc.Pre...)
+	pre := sc.Pre
+	if sc.Kind == "query" {
+		pre = []string{"INBOX"}
+	}
+	srv := newServer(pre...)
 	defer srv.close()
+	if sc.Kind == "query" {
+		buildStore(srv) // the fixed store of part B
+	}
 	conns := map[int]*conn{}
 	for i, st := range sc.Steps {
 		var c *conn
@@ -82,6 +90,7 @@ func expandCmd(cmd string) string {
 
 func main() {
 	run = vk.Start("C09", "model_checking")
+	debug.SetGCPercent(400)
 	if run.Replay != "" {
 		b, err := os.ReadFile(run.Replay)
 		if err != nil {
@@ -111,4 +120,112 @@ func main() {
 	finishEvidence()
 	pprof.StopCPUProfile()
 	run.Finish()
+}
+
+// replayOracle re-runs the oracle on a stored counterexample.
+func replayOracle(key string, sc script) {
+	b, _ := os.ReadFile(run.Replay)
+	var f struct {
+		Detail struct {
+			Scenario string `json:"scenario"`
+			History  []cmd  `json:"history"`
+		}
+	}
+	json.Unmarshal(b, &f)
+	if sc.Kind != "history" || len(f.Detail.History) == 0 {
+		fmt.Println("(query-space counterexample: the transcript above is the re-execution; expected values are in the replay file)")
+		return
+	}
+	for _, t := range []bool{false, true} {
+		for _, s := range scenarios(t) {
+			if s.name != f.Detail.Scenario {
+				continue
+			}
+			n := &node{m: newModel(s.pre)}
+			srv := newServer(s.pre...)
+			n.m.adoptAndCompare(srv.probe(s.universe), s.universe)
+			srv.close()
+			for i, c := range f.Detail.History {
+				out := execute(s, n, c)
+				if out.viol != "" {
+					fmt.Printf("oracle: step %d (%s) violates the model: %s\n", i, c.wire(), out.viol)
+					for _, d := range out.det["differences"].([]string) {
+						fmt.Printf("   %s\n", d)
+					}
+					run.Violation(out.viol, out.det)
+					return
+				}
+				n = &node{hist: append(append([]cmd{}, n.hist...), c), ok: append(append([]bool{}, n.ok...), out.ok), m: out.m}
+			}
+			fmt.Println("oracle: the history conforms to the model on this tree")
+			return
+		}
+	}
+	fmt.Println("oracle: unknown scenario " + f.Detail.Scenario)
+}
+
+func partA() {
+	var all []scenStats
+	for _, sc := range scenarios(run.Thorough()) {
+		st := bfs(sc)
+		all = append(all, st)
+		run.States += st.States
+		run.Trans += st.Transitions
+		run.Traces += st.Transitions
+	}
+	run.Set("A_scenarios", all)
+	nvm := map[string]int64{
+		"seq-addressed command issued on a stale view":                   nv.staleSeq,
+		"APPENDUID checked":                                              nv.appendUID,
+		"COPYUID checked":                                                nv.copyUID,
+		"transitions that removed messages":                              nv.expunged,
+		"STORE transitions that changed flags":                           nv.storeChanged,
+		"CREATE of a name that existed before (UIDVALIDITY clause)":      nv.recreated,
+		"new message in a mailbox whose highest UID was expunged before": nv.uidGap,
+	}
+	run.Set("A_non_vacuity", nvm)
+	for k, v := range nvm {
+		if v == 0 {
+			run.EngineError("non-vacuity counter %q is 0: the exploration never exercised that clause", k)
+		}
+	}
+}
+
+func finishEvidence() {
+	vc := map[string]int64{}
+	violCount.Range(func(k, v interface{}) bool { vc[k.(string)] = *(v.(*int64)); return true })
+	bViol.Range(func(k, v interface{}) bool { vc[k.(string)] += *(v.(*int64)); return true })
+	run.Set("violating_cases_per_key", vc)
+	run.Set("B_search_commands", bst.searchCmds)
+	run.Set("B_search_commands_with_nontrivial_result", bst.searchNonEmpty)
+	run.Set("B_fetch_commands", bst.fetchCmds)
+	run.Set("B_fetch_compared_with_section_table", bst.fetchCompared)
+	run.Set("B_fetch_on_unspecified_sections(framing only)", bst.fetchUnspecified)
+	run.Set("B_list_commands", bst.listCmds)
+	run.Set("B_misc_commands", bst.miscCmds)
+	run.Set("B_commands_that_killed_the_connection", bst.crashes)
+	run.AddEvals(run.Trans + bst.searchCmds + bst.fetchCmds + bst.listCmds + bst.miscCmds)
+	run.NontrivialN(run.States + bst.searchNonEmpty + bst.fetchCompared)
+	run.Exhaustive = true
+	run.Rule = "A: BFS over histories of a fresh imapserver+imapmemserver per transition (replay + 1 command), two sessions, one command at a time; per scenario: fixed seed prefix + every sequence of <= depth commands of the scenario alphabet (extending commands; leaf-only commands are executed and judged at every state but not extended); dedup on the canonical reference-model state incl. per-session selected mailbox, view and undelivered updates; after every step a fresh probe connection compares LIST/LSUB/LIST(SUBSCRIBED)/LIST-STATUS, and per name STATUS(6 items)/UID FETCH 1:* (UID FLAGS INTERNALDATE RFC822.SIZE)/UID SEARCH ALL/SEARCH ALL with the model. B: SEARCH: every leaf key, NOT k, NOT NOT k, (k), every ordered pair (AND) and OR k k' [+ NOT (k k'), NOT OR, OR NOT, cubic forms over a class-representative subset] x {SEARCH, UID SEARCH} x {plain, RETURN (MIN MAX COUNT ALL)} on 3 mailboxes against refmodel.Match; FETCH: 10 part paths x 6 specifiers x PEEK x (no partial + 7 offsets x 4 sizes) per corpus message against a hand-written section table; LIST: pattern family x 4 references x {LIST, LSUB, LIST (SUBSCRIBED)}; BODYSTRUCTURE/ENVELOPE/macros/STATUS items: framing clause only"
+	for _, a := range []string{
+		"flat namespace: names are opaque keys; RENAME/DELETE of a name that has inferiors ('A' while 'A/x' exists), RENAME INBOX, DELETE INBOX and RENAME A A/x are outside the alphabet (the statement does not promise hierarchy semantics)",
+		"free values are adopted, not predicted: UIDVALIDITY, UIDs of new messages, UIDNEXT — after checking: new UID > every UID ever assigned in the mailbox, UIDNEXT > every UID and never decreasing, UIDVALIDITY constant for a mailbox object and different from every earlier, different mailbox of the same name",
+		"subscriptions: RFC 3501 §6.3.6 keeps a name subscribed when its mailbox is deleted/renamed, imapmemserver drops/moves it with the mailbox object; the statement does not mention it: LSUB / LIST (SUBSCRIBED) are unconstrained for such a name until the next SUBSCRIBE/UNSUBSCRIBE of it (observation, not a violation). SUBSCRIBE of a nonexistent name and UNSUBSCRIBE of a not-subscribed name may answer OK or NO",
+		"a session whose selected mailbox is deleted or renamed keeps operating on the mailbox object (RFC 9051 §6.3.4 permits it)",
+		"when a session learns of other sessions' changes is implementation policy: the model mirrors imapserver's (a successful command polls; after FETCH/STORE/SEARCH expunges and everything queued behind the first one are withheld); untagged EXISTS/EXPUNGE/FETCH-flags updates themselves are C08's subject and are not judged here",
+		"a UID set containing '*' is not issued while the session has not been told about the newest message (RFC leaves open which message '*' means then)",
+		"COPY/MOVE of a mailbox onto itself and COPY/MOVE addressing no message may answer OK or NO; numbers beyond the session's view address nothing",
+		"EXAMINE: STORE/EXPUNGE may answer NO or OK-without-effect; the mailbox must not change (RFC 9051 §6.3.3)",
+		"FETCH sections the RFC does not define (parts that do not exist, HEADER/TEXT of a part that is not message/rfc822, MIME without part number, '.1' of a leaf part) are only checked for the framing clause; BODY[HEADER] of a message without the blank line may or may not end with CRLF",
+		"origin octets >= 2^32 cannot be represented in the response ('<' number '>'): only the content is compared there; partial size 0 is not syntactically valid and not issued",
+		"SEARCH: no key matches RFC 2047 encoded words, MIME-decoded content or 8-bit text; dates are compared in the zone the INTERNALDATE/Date header carries; every corpus message has a Date header",
+		"LIST: patterns beginning with the hierarchy delimiter and references not ending with it are not issued (RFC 9051 §6.3.9: implementation-dependent); INBOX is matched case-sensitively in patterns",
+		"exhaustive=true means: the bounded spaces described in rule were enumerated completely (no time budget cuts them)",
+	} {
+		run.Assume(a)
+	}
+	run.Sample("history", "a: APPEND INBOX …; a: SELECT INBOX; b: SELECT INBOX; a: MOVE 2 A; b: STORE * +FLAGS (\\deleted)")
+	run.Sample("search", "UID SEARCH RETURN (MIN MAX COUNT ALL) OR NOT SENTON 10-Mar-2024 HEADER X-Empty \"\"")
+	run.Sample("fetch", "FETCH 3 (BODY[3.HEADER.FIELDS (SUBJECT X-FOLDED NOPE)]<1.4294967296>)")
 }
